@@ -12,8 +12,9 @@ import engine
 def registry():
     import props_solve
     import props_store
+    import props_enc
     props = {}
-    for mod in (props_solve, props_store):
+    for mod in (props_solve, props_store, props_enc):
         for name in dir(mod):
             c = getattr(mod, name)
             if isinstance(c, type) and issubclass(c, engine.Property) and getattr(c, "id", None):
